@@ -788,11 +788,26 @@ end Algebra
 /-- the bound `2^(AttributeSize+ChallengeLength+ZkStat+1)` used by `revocationAttrIndex`. -/
 def revIdxMax : Int := 2 ^ (Gen.revAttributeSize + Gen.revChallengeLength + Gen.revZkStat + 1)
 
-/-- "this hidden response is below the bound". -/
+/-- "this hidden response is a candidate of `revocationAttrIndex`": its index is not 0 (the secret
+    key is never a candidate) and the response is below the bound. -/
 def belowRevMax (kv : Int × Option Int) : Bool :=
   match kv.2 with
-  | some r => decide (r < revIdxMax)
+  | some r => decide (kv.1 ≠ 0) && decide (r < revIdxMax)
   | none => false
+
+theorem belowRevMax_some (k r : Int) :
+    belowRevMax (k, some r) = (decide (k ≠ 0) && decide (r < revIdxMax)) := rfl
+
+theorem belowRevMax_none (k : Int) : belowRevMax (k, none) = false := rfl
+
+/-- a candidate never has index 0. -/
+theorem belowRevMax_fst_ne_zero {kv : Int × Option Int} (h : belowRevMax kv = true) : kv.1 ≠ 0 := by
+  obtain ⟨k, v⟩ := kv
+  rcases v with _ | r
+  · simp [belowRevMax_none] at h
+  · rw [belowRevMax_some] at h
+    simp only [Bool.and_eq_true, decide_eq_true_eq] at h
+    exact h.1
 
 theorem revocationCandidates_eq (p : ProofD) :
     p.revocationCandidates = (p.aResponses.filter belowRevMax).map (·.1) := by
@@ -803,16 +818,31 @@ theorem revocationCandidates_eq (p : ProofD) :
   | cons kv l ih =>
     obtain ⟨k, v⟩ := kv
     rcases v with _ | r
-    · simp only [List.filterMap_cons, List.filter_cons, belowRevMax]
+    · simp only [List.filterMap_cons, List.filter_cons, belowRevMax_none]
       simpa using ih
-    · by_cases h : r < revIdxMax
-      · have h' : r < 2 ^ (Gen.revAttributeSize + Gen.revChallengeLength + Gen.revZkStat + 1) := h
-        simp only [List.filterMap_cons, List.filter_cons, belowRevMax, h, h', if_true, decide_true,
-          List.map_cons]
+    · by_cases h : k ≠ 0 ∧ r < revIdxMax
+      · have h' : k ≠ 0 ∧
+            r < 2 ^ (Gen.revAttributeSize + Gen.revChallengeLength + Gen.revZkStat + 1) := h
+        have hb : belowRevMax (k, some r) = true := by
+          rw [belowRevMax_some]; simp [h.1, h.2]
+        simp only [List.filterMap_cons, List.filter_cons, hb, if_pos h', if_true, List.map_cons]
         rw [ih]
-      · have h' : ¬ r < 2 ^ (Gen.revAttributeSize + Gen.revChallengeLength + Gen.revZkStat + 1) := h
-        simp only [List.filterMap_cons, List.filter_cons, belowRevMax, h, h', if_false, decide_false]
+      · have h' : ¬ (k ≠ 0 ∧
+            r < 2 ^ (Gen.revAttributeSize + Gen.revChallengeLength + Gen.revZkStat + 1)) := h
+        have hb : belowRevMax (k, some r) = false := by
+          rw [belowRevMax_some]
+          rcases not_and_or.mp h with h1 | h2
+          · simp [h1]
+          · simp [h2]
+        simp only [List.filterMap_cons, List.filter_cons, hb, if_neg h']
         simpa using ih
+
+/-- index 0 (the secret key) is never a candidate of `revocationAttrIndex`. -/
+theorem zero_not_mem_revocationCandidates (p : ProofD) : (0 : Int) ∉ p.revocationCandidates := by
+  rw [revocationCandidates_eq]
+  intro h
+  obtain ⟨kv, hkv, h0⟩ := List.mem_map.mp h
+  exact belowRevMax_fst_ne_zero (List.mem_filter.mp hkv).2 h0
 
 theorem revChoices_of_single (p : ProofD) (nr : NonRevProof) (kv : Int × Option Int)
     (hnr : p.nonrev = some nr) (h : p.aResponses.filter belowRevMax = [kv]) :
